@@ -74,7 +74,12 @@ fn single_check(ty: &'static str) -> impl Fn(&[u64], &mut Tally) -> Result<(), F
             o2.clear();
             let r0 = vcore::catch(|| call(e.id, &mut Src::new(args), &mut o0));
             let r1 = vcore::catch(|| call(e.id, &mut Src::with_hidden(args, &h1), &mut o1));
-            let r2 = vcore::catch(|| call(e.id, &mut Src::with_hidden(args, &h2), &mut o2));
+            // second world: the hidden lane arrives through the raw-register `From` impl instead of `from_vec4`
+            let r2 = vcore::catch(|| {
+                let mut s2 = Src::with_hidden(args, &h2);
+                s2.mk3a = Some(raw_inject);
+                call(e.id, &mut s2, &mut o2)
+            });
             if nt {
                 t.nontrivial(mix(hash_str(VARIANT), mix(e.id as u64, fnv(w))));
                 if t.want_sample() && e.id % 11 == 0 {
@@ -139,6 +144,7 @@ fn program_check(w: &[u64], t: &mut Tally) -> Result<(), Fail> {
         s1.pool = Some(&p1);
         let mut s2 = Src::with_hidden(args, &h2);
         s2.pool = Some(&p2);
+        s2.mk3a = Some(raw_inject);
         let r1 = vcore::catch(|| call(id, &mut s1, &mut o1));
         let r2 = vcore::catch(|| call(id, &mut s2, &mut o2));
         let mk = |m: String| Fail::new(format!("C08/{}/{}/{}", VARIANT, e.ty, e.name), format!("program step {st}: {}", e.sig), m);
